@@ -248,6 +248,15 @@ Definition on_boundary (poly : list pt) (p : pt) : bool := existsb (on_edge p) (
 Definition spec_contain (poly : list pt) (p : pt) : bool :=
   on_boundary poly p || negb (wn poly p =? 0).
 
+(* the other half-open rule (an edge contains its lower end point and not its upper one);
+   ContainProofs.wn_convention_lemma: off the boundary both rules give the same number *)
+Definition cross_sign_lo (p : pt) (e : pt * pt) : Z :=
+  let (a, b) := e in
+  if (py a <=? py p) && (py p <? py b) then (if 0 <? det p a b then 1 else 0)
+  else if (py b <=? py p) && (py p <? py a) then (if det p a b <? 0 then -1 else 0)
+  else 0.
+Definition wn_lo (poly : list pt) (p : pt) : Z := zsum (map (cross_sign_lo p) (closed_edges poly)).
+
 (* shoelace sum = twice the signed area *)
 Definition shoelace2 (poly : list pt) : Z :=
   zsum (map (fun e : pt * pt => cross (fst e) (snd e)) (closed_edges poly)).
